@@ -55,6 +55,7 @@ type planCase struct {
 	Path   []string `json:"path"`
 	Layout bool     `json:"layout"`
 	Link   bool     `json:"link"`
+	Equiv  bool     `json:"equiv"`
 }
 
 type bodyID struct {
@@ -150,7 +151,23 @@ type world struct {
 	real   *RealLog
 }
 
+// pctFirst / pctLast spell one hex digit of a value percent-encoded (an
+// equivalent spelling in the sense of RFC 3986 section 2.3).
+func pctAt(v string, i int) string {
+	return v[:i] + fmt.Sprintf("%%%02x", v[i]) + v[i+1:]
+}
+
 func (w *world) wire(seg string) string {
+	if ph, ok := strings.CutSuffix(seg, "~first"); ok {
+		if v, ok := w.subst[ph]; ok {
+			return pctAt(v, 0)
+		}
+	}
+	if ph, ok := strings.CutSuffix(seg, "~last"); ok {
+		if v, ok := w.subst[ph]; ok {
+			return pctAt(v, len(v)-1)
+		}
+	}
 	for k, v := range w.subst {
 		seg = strings.ReplaceAll(seg, k, v)
 	}
@@ -413,23 +430,30 @@ func selectCases(plan []planCase, tier string, seed int64) []int {
 	if v, err := strconv.Atoi(os.Getenv("VERIF_ROUTES_MAX")); err == nil && v > 0 {
 		max = v
 	} else if tier == "quick" {
-		max = 1200
+		max = 1700
 	}
-	var idx, rest []int
+	var idx, equiv, rest []int
 	for i, c := range plan {
 		// always: the layout paths and the requests through symbolic links
 		if (c.Layout || c.Link) && c.Method == "GET" && resolve(c.Host, c.Path) != nil {
 			idx = append(idx, i)
+		} else if c.Equiv {
+			equiv = append(equiv, i)
 		} else {
 			rest = append(rest, i)
 		}
 	}
-	if len(idx)+len(rest) <= max {
-		idx = append(idx, rest...)
+	if len(idx)+len(equiv)+len(rest) <= max {
+		idx = append(append(idx, equiv...), rest...)
 	} else if len(idx) < max {
+		// a third of what is left for equivalent spellings of layout paths,
+		// the rest for everything else
 		rng := rand.New(rand.NewSource(seed))
+		rng.Shuffle(len(equiv), func(i, j int) { equiv[i], equiv[j] = equiv[j], equiv[i] })
 		rng.Shuffle(len(rest), func(i, j int) { rest[i], rest[j] = rest[j], rest[i] })
-		idx = append(idx, rest[:max-len(idx)]...)
+		ne := min(len(equiv), (max-len(idx))/2)
+		idx = append(idx, equiv[:ne]...)
+		idx = append(idx, rest[:min(len(rest), max-len(idx))]...)
 	}
 	sort.Ints(idx)
 	return idx
